@@ -70,9 +70,11 @@ def execution_programs(r, recs, n):
         need_dil = max(1, R * sum(vmax))
         stock_cols, dil_cols = r.randint(1, 2), r.randint(1, 2)
         sc, dc = r.randrange(stock_cols), r.randrange(dil_cols)
-        smax = (need_stock + r.randint(10, 500)) * U
+        # every fifth stock trough holds exactly what the plan consumes (and may run empty), the others some reserve
+        exact_stock = i % 5 == 2
+        smax = (need_stock + (0 if exact_stock else r.randint(10, 500))) * U
         dmax = (need_dil + r.randint(10, 500)) * U
-        stock = gen.mk_trough("stock", r.choice([1, 4, 8, R]), stock_cols, r.choice([0, 5 * U]), smax + 10 * U, [smax if c == sc else 0 for c in range(stock_cols)])
+        stock = gen.mk_trough("stock", r.choice([1, 4, 8, R]), stock_cols, 0 if exact_stock else r.choice([0, 5 * U]), smax + 10 * U, [smax if c == sc else 0 for c in range(stock_cols)])
         dil = gen.mk_trough("diluent", r.choice([1, 2, 8, R]), dil_cols, 0, dmax, [dmax if c == dc else 0 for c in range(dil_cols)])
         pr, pc = R + r.choice([0, 0, 2]), C + r.choice([0, 0, 1])
         plate = gen.mk_plate("dilutions", min(pr, 26), pc, 0, (max(vmax) + r.choice([0, 50])) * U, [0] * (min(pr, 26) * pc))
@@ -83,7 +85,7 @@ def execution_programs(r, recs, n):
             lws = [both, dil, plate]
             sc, dc = 0, 1
         op = {"op": "dilution", "params": p, "stock": 0, "stock_column": sc, "diluent": 0 if i % 4 == 1 else 1, "diluent_column": dc, "plate": 2,
-              "mix_repeat": r.choice([0, 1, 2]), "mix_volume": r.choice([0.5, 0.25, 0.8, 0.8]), "mix_wash": r.choice([2, "flush", "reuse"]),
+              "mix_repeat": r.choice([0, 1, 2]), "mix_volume": r.choice([0.5, 0.25, 0.8, 0.8, 1.0]), "mix_wash": r.choice([2, "flush", "reuse"]),
               "roomy": True}
         if r.random() < 0.4:
             op["mix_threshold"] = r.choice([0.0, 0.05, 0.5, 1.0, 2.0])
